@@ -12,6 +12,7 @@ import SoyVerif.Ops.Writer
 import SoyVerif.Ops.Escape
 import SoyVerif.Ops.Value
 import SoyVerif.Ops.Msg
+import SoyVerif.Ops.JsGen
 import SoyVerif.Ops.Lexer
 import SoyVerif.Ops.FileParser
 import SoyVerif.Ops.Eval
@@ -29,6 +30,7 @@ def allOps : List Op :=
   Ops.Escape.ops ++
   Ops.Value.ops ++
   Ops.Msg.ops ++
+  Ops.JsGen.ops ++
   Ops.Lexer.ops ++
   Ops.Eval.ops ++
   Ops.EvalSpec.ops
